@@ -213,6 +213,11 @@ def rule_prepare_table(check, rule, rule_idem=None):
                 check.holds(rule, st, 'the rewritten signature is stored as __signature__', key=key)
             else:
                 check.violation(rule, st, '_prepare does not store sig.replace(parameters=<rewritten list>) as __signature__', key=key)
+    for need, what, wit in (('_prepare|end|intersection=True', 'a name selected as both positional-only and keyword-only is rejected', "_PokTranslator(f, posoargs=('a',), kwoargs=('a',))"),
+                            ('_prepare|end|intersection=False,leftover=True', 'names that match no parameter are rejected', "kwoargs('nope')(f)")):
+        if not any(k.startswith(need) for k in seen):
+            check.violation(rule, site_of(fi, fi.node), '_prepare has no path on which %s (ValueError at decoration time)' % what, key=need + '|missing',
+                            witness=wit)
     # idempotence: every list _prepare appends to is created inside _prepare
     if rule_idem:
         bad = None
@@ -387,6 +392,8 @@ def rule_forms(check, rule):
                 else:
                     if fnd is False and not adds:
                         msg = 'a parameter up to end= is not selected'
+                    if eqm is True and fnd is not True and not adds:
+                        msg = 'the end= parameter itself is not selected'
                     if fnd is True and adds:
                         msg = 'a parameter after end= is selected'
                     if eqm is True and fout != K(True):
